@@ -57,6 +57,9 @@ func runC11(c C11Case) ev.Outcome {
 	if c.Kind == "storm" {
 		run = runC11Storm
 	}
+	if c.Kind == "flood" {
+		run = runC11Flood
+	}
 	// a failed time clause is confirmed by re-executing the same case before it is reported
 	return withHangConfirmation("C11", c, func() (ev.Outcome, bool) { return run(c) })
 }
